@@ -39,6 +39,8 @@ META['explanation'] += ' ' + 'R10: SCSV fold tabulated through the class default
 
 META['explanation'] += ' ' + 'R2 also: a parsed field that reaches no argument of the constructed object, a constant written in place of an attribute the parser stores as read, items written sorted / reversed. R14: numeric presence by truth value. R15: flag words and timestamps (shared with C11.R4/R5). R16: ECDSA points (shared with C07.R12). R17: validators in the position of a default. R18: adjacent optional text parts with the same introducer.'
 
+META['explanation'] += ' ' + 'R19: SSH identification string (shared with C07.R6). R20: SPF network terms (shared with C18.R7).'
+
 HERE = os.path.dirname(os.path.dirname(os.path.abspath(__file__)))
 
 
